@@ -586,13 +586,22 @@ var astWriteTable = map[string]tabEntry{
 	"merger.(SanitizeNodeMergerFunc).Merge/Definition.Fields":    {1, "start-up: the node field is removed from the merged Query type"},
 }
 
-func ruleASTWrites(r *Run) {
+func ruleASTWrites(r *Run) { ruleASTWritesIn("")(r) }
+
+// ruleASTWritesIn restricts the rule to the functions of one package (short name); "" = all.
+func ruleASTWritesIn(onlyPkg string) ruleFn {
+	return func(r *Run) { astWrites(r, onlyPkg) }
+}
+
+func astWrites(r *Run, onlyPkg string) {
 	const rule = "R3a.ast"
 	n := 0
 	var fns []*ssa.Function
 	fns = append(fns, r.P.Funcs...)
 	sort.Slice(fns, func(i, j int) bool { return fnName(fns[i]) < fnName(fns[j]) })
 	for _, fn := range fns {
+		// out-of-scope packages are walked silently so that table credits are consumed
+		r.silent = onlyPkg != "" && (topFn(fn).Pkg == nil || shortPkg(topFn(fn).Pkg.Pkg.Path()) != onlyPkg)
 		for _, ins := range allInstrs(fn) {
 			st, ok := ins.(*ssa.Store)
 			if !ok {
@@ -616,5 +625,10 @@ func ruleASTWrites(r *Run) {
 			}
 		}
 	}
-	r.AtLeast(rule, "in-place AST writes", n, 8)
+	r.silent = false
+	if onlyPkg == "" {
+		r.AtLeast(rule, "in-place AST writes", n, 8)
+	} else {
+		r.AtLeast(rule, "in-place AST writes (module-wide, reported for "+onlyPkg+" only)", n, 8)
+	}
 }
